@@ -66,7 +66,7 @@ end
 
 /-- The page object demanded for a leaf: `PDFPage` built from own-or-inherited attributes. -/
 def specPage (g : Store) (p : Nat × List Dict) : Except Err Page :=
-  .ok (mkPage g p.1 (inherited p.2 "Resources") (inherited p.2 "MediaBox") (inherited p.2 "CropBox")
+  .ok (mkPage g (some p.1) (inherited p.2 "Resources") (inherited p.2 "MediaBox") (inherited p.2 "CropBox")
     (inherited p.2 "Rotate"))
 
 /-- All pages of a tree. -/
@@ -108,7 +108,7 @@ def specRender (rotate : Int) (mb : Rect) (p : Point) : Rect × Matrix :=
 /-! ### Trees inside object graphs -/
 
 /-- References to the roots of a list of trees (what a Kids array holds). -/
-def kidRefs (ts : List PTree) : List Atom := ts.map (fun t => Atom.ref t.id)
+def kidRefs (ts : List PTree) : List Elem := ts.map (fun t => Elem.atom (.ref t.id))
 
 mutual
   /-- The object graph `g` contains the tree `t`: every node's dictionary is what its reference
@@ -125,7 +125,7 @@ end
 
 /-! ### Unfolding an object graph (driver only) -/
 
-def mapKids (f : Atom → Option PTree) : List Atom → Option (List PTree)
+def mapKids (f : Elem → Option PTree) : List Elem → Option (List PTree)
   | [] => some []
   | k :: ks =>
     match f k, mapKids f ks with
@@ -134,9 +134,9 @@ def mapKids (f : Atom → Option PTree) : List Atom → Option (List PTree)
 
 /-- The tree below a Kids entry; `none` when something other than Page / Pages-with-Kids nodes
 referenced by indirect references is met, or the fuel runs out (a cycle). -/
-def toTree (g : Store) : Nat → Atom → Option PTree
+def toTree (g : Store) : Nat → Elem → Option PTree
   | 0, _ => none
-  | f + 1, .ref n =>
+  | f + 1, .atom (.ref n) =>
     let d := dictValue g (.atom (.ref n))
     if isName (nodeType d) "Page" then some (.page n d)
     else if isName (nodeType d) "Pages" then
@@ -157,7 +157,7 @@ def docTree (g : Store) (fuel : Nat) (catalog : Dict) : Option PTree :=
   else
     match dget catalog "Pages" with
     | some (.atom a) =>
-      match toTree g fuel a with
+      match toTree g fuel (.atom a) with
       | some t => if nodupNat t.ids then some t else none
       | none => none
     | _ => none
